@@ -95,6 +95,15 @@ def fitSegRecordXY (t : Int → R) : R × R := (t Gen.fitSegRecord.1, t Gen.fitS
 def fitTiltOpdSeg (s0 s1 : Int) (px0 px1 : R) (segs : List (Int × (Int → Int → R) × (Int → R))) (opd : Int → Int → R) :
     Int → Int → R :=
   fun i j => sumList segs fun s => (opd i j - fitSegSubtract s0 s1 px0 px1 s.1 s.2.1 s.2.2 i j) * s.2.1 i j
+
+/-- `fit_tilt` on a plane with one mask, as called: under the generated early-return test (`Gen.fitTiltSkips`, with `ptt_vector is None`
+given by the generated `Gen.pttVectorNone`; `shapeEmpty` = `self.shape == ()`, `shapeNone` = `self.shape is None`, `opdSize` =
+`plane.opd.size`) the plane comes back untouched — same OPD, nothing recorded (`none`); otherwise the OPD with the fitted ramp removed
+and the `(x, y)` of the recorded `Tilt` -/
+def fitTiltCall (shapeEmpty shapeNone : Bool) (opdSize : Int) (s0 s1 : Int) (px0 px1 : R) (mask opd : Int → Int → R) (t : Int → R) :
+    (Int → Int → R) × Option (R × R) :=
+  if Gen.fitTiltSkips (Gen.pttVectorNone shapeEmpty shapeNone) opdSize then (opd, none)
+  else (fitTiltOpd s0 s1 px0 px1 mask opd t, some (fitRecordXY t))
 end fit
 
 /-! ## How tilt lists are built (generated wiring `Gen.wavefrontInitTilt`, `Gen.fieldMulTilt`, `Gen.tiltInterfaceAppend`) -/
